@@ -474,6 +474,79 @@ theorem C20_credentials_per_host (cfg : AuthCfg) (host : Nat) (fs : List SFrame)
       · rintro rs sf rfl
         exact (C20_custom_tokens_in_order rs sf fs).subset ((mem_tokens _ _).mpr h)
 
+/-! ## "only after TLS verification as configured" -/
+
+/-- the derived config has a RootCAs pool exactly when the caller supplied the CA (CaPath or own RootCAs) -/
+theorem setup_hasRootCAs (o : SslOpts) (c : OutCfg) (h : setupTLSConfig o = .ok c) : c.hasRootCAs = Spec.hasCA o := by
+  obtain ⟨cfg, ehv, ca, cert, key⟩ := o
+  rcases cfg with _ | ⟨i, sn, r, n⟩ <;> cases ehv <;> (try cases i) <;> cases ca <;> cases cert <;> cases key <;>
+    simp [setupTLSConfig, keyPairLoads] at h <;> subst h <;> simp [Spec.hasCA]
+
+/-- End to end, for every SslOptions (that yield a config), host name, port, server certificate, authenticator and
+    server frame sequence: the TLS handshake is accepted exactly when the documented table says "do not verify" or
+    the certificate chains to the configured CA and is valid for the expected name (the caller's ServerName, else the
+    host being dialled); when it is not accepted NOTHING is sent on the connection (no OPTIONS, no credentials) and
+    the dial fails; hence an AUTH_RESPONSE leaves the client only after verification as configured.
+    (crypto/tls itself is assumed: `tlsAccepts`.) -/
+theorem C20_credentials_only_after_verification (o : SslOpts) (hostname port : List UInt8) (cert : ServerCert)
+    (auth : Option AuthImpl) (fs : List SFrame) (t : TlsDial) (hp : colon ∉ port)
+    (h : dialTLS o hostname port cert auth fs = .ok t) :
+    t.accepted = Spec.mayProceed o hostname cert ∧
+    (t.accepted = false → t.trace.sent = [] ∧ t.trace.calls = [] ∧ t.trace.outcome = .errTlsVerify) ∧
+    (t.accepted = true → t.trace = handshake auth fs) ∧
+    (∀ tok, Sent.authResponse tok ∈ t.trace.sent → Spec.mayProceed o hostname cert = true) := by
+  have key : t.accepted = Spec.mayProceed o hostname cert ∧
+      (t.accepted = false → t.trace = .stop .errTlsVerify) ∧ (t.accepted = true → t.trace = handshake auth fs) := by
+    simp only [dialTLS] at h
+    cases hs : setupTLSConfig o with
+    | error e => rw [hs] at h; cases h
+    | ok c =>
+      rw [hs] at h
+      obtain ⟨h1, h2, h3⟩ := C20_setup_follows_table o c hs
+      have hroots : c.hasRootCAs = Spec.hasCA o := setup_hasRootCAs o c hs
+      have hmv : Spec.mustVerify o = !c.insecure := by simp [Spec.mustVerify, h1]
+      have hname : c.insecure = false →
+          (tlsConfigForAddr c.insecure c.serverName (joinHostPort hostname port)).1 = Spec.expectedName o hostname := by
+        intro hi
+        simp only [Spec.expectedName, ← h2]
+        by_cases he : c.serverName = []
+        · rw [(C20_server_name c.insecure c.serverName _).1 hi he, he]
+          simp [C20_server_name_of_host hostname port hp]
+        · rw [(C20_server_name c.insecure c.serverName _).2 (Or.inr he)]
+          simp [he]
+      have hacc : tlsAccepts c.insecure c.hasRootCAs
+          (tlsConfigForAddr c.insecure c.serverName (joinHostPort hostname port)).1 cert = Spec.mayProceed o hostname cert := by
+        simp only [tlsAccepts, Spec.mayProceed, hmv, hroots, Bool.not_not]
+        cases hi : c.insecure
+        · have := hname hi
+          rw [hi] at this
+          simp [this]
+        · simp
+      simp only [] at h
+      rw [hacc] at h
+      by_cases hm : Spec.mayProceed o hostname cert = true
+      · simp only [hm, if_true] at h; cases h; exact ⟨hm.symm, by simp, fun _ => rfl⟩
+      · simp only [hm] at h; cases h
+        exact ⟨by simpa using hm, fun _ => rfl, by simp⟩
+  obtain ⟨k1, k2, k3⟩ := key
+  refine ⟨k1, ?_, k3, ?_⟩
+  · intro hf; rw [k2 hf]; exact ⟨rfl, rfl, rfl⟩
+  · intro tok hm
+    cases ha : t.accepted
+    · rw [k2 ha] at hm; cases hm
+    · rw [← k1, ha]
+
+/-- non-vacuity: host verification on, CA given; the node presents a certificate for another name → rejected, nothing
+    sent; the right certificate → the password token goes out -/
+example : (dialTLS ⟨none, true, .valid, .absent, .absent⟩ (strBytes "node-b") (strBytes "9042")
+    ⟨[strBytes "node-a"], true⟩ (some (.pw ⟨[117], [112], []⟩))
+    [.supported, .authenticate (strBytes "org.apache.cassandra.auth.PasswordAuthenticator"), .authSuccess []]).toOption =
+    some ⟨strBytes "node-b", false, .stop .errTlsVerify⟩ := by decide
+example : (dialTLS ⟨none, true, .valid, .absent, .absent⟩ (strBytes "node-b") (strBytes "9042")
+    ⟨[strBytes "node-b"], true⟩ (some (.pw ⟨[117], [112], []⟩))
+    [.supported, .authenticate (strBytes "org.apache.cassandra.auth.PasswordAuthenticator"), .authSuccess []]).toOption.map
+      (·.trace.sent) = some [.options, .startup, .authResponse [0, 117, 0, 112]] := by decide
+
 /-- `NewSession` refuses a configuration with both an Authenticator and an AuthProvider before dialling anything;
     every other configuration dials and connects as above. -/
 theorem C20_session_config (cfg : AuthCfg) (host : Nat) (fs : List SFrame) :
